@@ -641,7 +641,9 @@ func memoKeyRule(c *Ctx, r *Result, rule string) {
 	r.Floor(rule, 1)
 }
 
-func c06everyChunkCopied(c *Ctx, r *Result) {
+func c06everyChunkCopied(c *Ctx, r *Result) { everyChunkCopiedRule(c, r, "C06.8") }
+
+func everyChunkCopiedRule(c *Ctx, r *Result, rule string) {
 	fn := c.Fn(r, "core.readChunkedData")
 	if fn == nil {
 		return
@@ -653,20 +655,20 @@ func c06everyChunkCopied(c *Ctx, r *Result) {
 		}
 	}
 	if copyCall == nil {
-		r.Errorf("C06.8: readChunkedData no longer calls copyChunkToArray")
+		r.Errorf(rule + ": readChunkedData no longer calls copyChunkToArray")
 		return
 	}
 	bad, n, found := c.loopSkipsJustified(fn, copyCall.Block())
 	if !found {
-		r.Errorf("C06.8: chunk loop not found")
+		r.Errorf(rule + ": chunk loop not found")
 		return
 	}
 	if n == 0 {
-		r.Errorf("C06.8: no back edge of the chunk loop found")
+		r.Errorf(rule + ": no back edge of the chunk loop found")
 		return
 	}
-	r.Check(bad == "", "C06.8", c.Name(fn)+"#every-listed-chunk-copied", firstNonEmpty(bad, c.InstrPos(copyCall)), "every iteration of the chunk loop reaches copyChunkToArray (or returns an error); a chunk may only be skipped where scaled*chunkSize >= dims is established (a partial boundary chunk starts inside the extent and holds data)")
-	r.Floor("C06.8", 1)
+	r.Check(bad == "", rule, c.Name(fn)+"#every-listed-chunk-copied", firstNonEmpty(bad, c.InstrPos(copyCall)), "every iteration of the chunk loop reaches copyChunkToArray (or returns an error); a chunk may only be skipped where scaled*chunkSize >= dims is established (a partial boundary chunk starts inside the extent and holds data)")
+	r.Floor(rule, 1)
 }
 
 // naturalLoop: the blocks of the natural loop(s) with header h (h plus every block that reaches a back-edge source without
